@@ -7,6 +7,7 @@ use vstd::std_specs::cmp::{PartialEqSpec, PartialEqSpecImpl, PartialOrdSpec, Par
 verus! {
 //@include prelude.rs
 //@include f64.rs
+//@include stdint.rs
 //@include bigint.rs
 //@include bigint_ops.rs
 //@include bigrat.rs
